@@ -75,9 +75,13 @@ theorem existing_task_never_lost (s : Sys) (ref : TaskRef) (p : PodObj)
     (hcache : ∀ q, findPod s.podCache ref.name = some q → (podTask q).isSome)
     (ht : (podTask p).isSome) :
     (getTaskForRef s ref).isSome := by
-  unfold getTaskForRef
+  unfold getTaskForRef liveGetTask
   cases hc : findPod s.podCache ref.name with
-  | some q => simpa [hc] using hcache q hc
+  | some q =>
+    have hq := hcache q hc
+    cases hpt : podTask q with
+    | none => rw [hpt] at hq; cases hq
+    | some t => simp [hfin, hpt]
   | none => simpa [hc, hfin, hp] using ht
 
 example : ∃ s jo idx retry s1, apiCreatePod s jo idx retry = (s1, .exists) := by
